@@ -163,7 +163,7 @@ func anyFileNewerThan(files []string, givenTime time.Time) (bool, error) {
 // OnError implements the Checker interface. The timestamp file records the
 // last run; a run that did not complete must not count, so the file is removed.
 func (checker *TimestampChecker) OnError(t *ast.Task) error {
-	if len(t.Sources) == 0 {
+	if len(t.Sources) == 0 || checker.dry {
 		return nil
 	}
 	_ = os.Remove(checker.timestampFilePath(t) + pendingSuffix)
